@@ -5,7 +5,7 @@ from props.polycases import P, W, coef, poly, grp, sc
 
 ID = "C17"
 GEN_TAGS = ["PolyGen"]
-PROOF_TARGETS = ["proofs/PolyCoreProofs.vo"]
+PROOF_TARGETS = ["proofs/PolyCoreProofs.vo", "proofs/PolyC07Wrap.vo", "proofs/PolyValueSem.vo"]
 PROPS_FILE = "props/C17.v"
 EXTRACT = "extract/ExtractC07.vo"
 ORACLE = ("gen_c07", "c07.ml")
